@@ -81,9 +81,9 @@ func computeDependenciesAndInclusion(funcs []*provider, initF *provider) ([]*pro
 		if fm.mustConsume != nil {
 			fm.d.mustConsumeFlow[outputParams] = true
 		}
-		if fm.consumptionOptional == nil {
-			fm.d.mustConsumeFlow[returnParams] = true
-		}
+		// every returned type must be consumed, except the ones listed in
+		// consumptionOptional: checkFlows skips those type by type
+		fm.d.mustConsumeFlow[returnParams] = true
 		if fm.required {
 			fm.whyIncluded = "required"
 		} else if fm.desired {
